@@ -79,7 +79,7 @@ def run(ctx):
                               "owner = source IP of the TCP control connection; ports not asserted",
                               "loopback delivery of UDP datagrams is reliable and ordered per socket pair"],
                  states=ideal.distinct, transitions=nedges,
-                 traces_validated_against_impl=summ["paths"] + tsum["traces"], exhaustive=bool(complete),
+                 traces_validated_against_impl=summ["paths"] + tsum["traces"], exhaustive=bool(complete) or S.edges_covered(paths, ideal.edges), all_arrival_orders_replayed=bool(complete),
                  arrival_orders_in_model=total, replayed_paths=summ["paths"], replayed_steps=summ["steps"],
                  deviation_scenarios_run=summ["attack_paths"], replay_mismatches=summ["mismatches"],
                  trace_events=tsum["events"], trace_relayed=tsum["relayed"], trace_replies=tsum["replies"],
